@@ -60,7 +60,7 @@ def shards(tier):
 
 
 def floors(tier):
-    f = {"histories": 4000, "operations": 60000, "abandon_at_scope_depth3plus": 200, "exception_unwound_2plus_scopes": 200,
+    f = {"histories": 4000, "operations": 60000, "histories_with_legacy_interface_resolver": 500, "abandon_at_scope_depth3plus": 200, "exception_unwound_2plus_scopes": 200,
          "fail_then_succeed_retrievals": 100, "scope_events": 100000, "max_scope_depth": 4, "results_compared": 15000,
          "results_refres_while_failing": 200}
     for op in ("is_valid", "exhaust", "validate", "take_close", "take_drop", "throw", "resolve", "resolving", "in_scope",
@@ -126,6 +126,10 @@ def rich_world(rng, d, unresolvable=True):
         "f": {"format": "vf-format"},
         "t": {"type": "string"},
         "l": {"$ref": "#/definitions/leaf"},
+        # user keywords built on the resolver's context managers (abandoned like any other generator)
+        "xs": {"x-inscope": {"scope": "http://other.example/z/", "schema": {"items": {"$ref": R.ROOT_URL + "#/definitions/leaf"}}}},
+        "xr": {"x-resolving": R.ROOT_URL + "#/definitions/deep"},
+        "xr2": {"items": {"x-resolving": H + "h1.json"}},
         # two URLs that differ only in case / query / trailing slash / an escape designate different documents
         "ua": {"$ref": H + "pairs/" + pa},
         "ub": {"$ref": H + "pairs/" + pb},
@@ -184,8 +188,10 @@ def rich_world(rng, d, unresolvable=True):
                 out[n] = deep_inst() if rng.random() < 0.5 else ig.any(1)
             elif n == "rec":
                 out[n] = tree_inst(rng.randrange(0, 3))
-            elif n == "k2":
+            elif n in ("k2", "xr"):
                 out[n] = deep_inst()
+            elif n in ("xs", "xr2"):
+                out[n] = [ig.any(1), ig.any(1), ig.any(1)]
             elif n == "k3":
                 out[n] = [tree_inst(1), tree_inst(0)]
             elif n == "r":
@@ -236,11 +242,23 @@ def build_class(world):
         if instance == 1:
             yield X.ValidationError("x-boom does not like 1")
 
+    def x_inscope(validator, value, instance, schema):
+        # a user keyword written with the documented context managers
+        with validator.resolver.in_scope(value["scope"]):
+            for error in validator.descend(instance, value["schema"]):
+                yield error
+
+    def x_resolving(validator, value, instance, schema):
+        with validator.resolver.resolving(value) as sub:
+            for error in validator.descend(instance, sub):
+                yield error
+
     def is_string(checker, instance):
         if world.type_boom and isinstance(instance, str) and instance == "yy":
             raise Boom("type check raised")
         return isinstance(instance, str)
-    return validators.extend(base, {"x-boom": x_boom}, type_checker=base.TYPE_CHECKER.redefine("string", is_string))
+    return validators.extend(base, {"x-boom": x_boom, "x-inscope": x_inscope, "x-resolving": x_resolving},
+                             type_checker=base.TYPE_CHECKER.redefine("string", is_string))
 
 
 def build_validator(world, cls, healthy):
@@ -262,7 +280,22 @@ def build_validator(world, cls, healthy):
         return instance != "x"
     fc.checks("vf-format")(vf_format)
     resolver = RefResolver.from_schema(world.schema, id_of=cls.ID_OF, store=dict(world.store), handlers={"vf": handler})
+    if getattr(world, "legacy_resolver", False):
+        resolver = LegacyResolver(resolver)
     return cls(world.schema, resolver=resolver, format_checker=fc)
+
+
+class LegacyResolver:
+    """A resolver with the pre-`resolve()` interface (the `$ref` keyword then goes through `resolving()`):
+    everything is forwarded to a stock RefResolver except `resolve`."""
+
+    def __init__(self, inner):
+        self._inner = inner
+
+    def __getattr__(self, name):
+        if name == "resolve":
+            raise AttributeError(name)
+        return getattr(self._inner, name)
 
 
 def outcome(fn):
@@ -315,7 +348,7 @@ def perform(v, op):
         return outcome(run)
     if kind == "resolve":
         def run():
-            url, resolved = v.resolver.resolve(op["ref"])
+            url, resolved = getattr(v.resolver, "_inner", v.resolver).resolve(op["ref"])
             return [url, jdump(resolved)[:200]]
         return outcome(run)
     if kind == "resolving":
@@ -421,7 +454,7 @@ def _run_history(ctx, world, ops, slog):
         depth = 1
         maxd = 1
         for ev in slog.events[ev_before:]:
-            if ev[1] != id(V.resolver):
+            if ev[1] != id(getattr(V.resolver, "_inner", V.resolver)):
                 continue
             if ev[0] == "push":
                 depth += 1
@@ -554,6 +587,9 @@ def run(ctx):
         for i in range(ctx.scale(800, 6000)):
             d = impl.DRAFTS[i % 4]
             world = rich_world(rng, d) if rng.random() < 0.7 else arranged_world(rng, d)
+            world.legacy_resolver = rng.random() < 0.25
+            if world.legacy_resolver:
+                ctx.count("histories_with_legacy_interface_resolver")
             ops = gen_history(rng, world)
             run_history(ctx, world, ops, slog)
             if i % 97 == 0:
